@@ -588,6 +588,7 @@ fn seq_step<T: Payload + 'static>(cx: &mut Ctx<T>, sp: &mut Spec, k: u8, i: usiz
         A_TRY_RECV | A_TRY_RECV_RT | A_RECV_TIMEOUT | A_DRAIN | A_CLOSE_R | A_CONVERT_R => {
             kani::assume(lr > 0 && (k != A_CONVERT_R || !rf_live))
         }
+        A_ROT_W | A_ROT_Q => a.d = d,
         A_CLONE_S => {
             kani::assume(ls > 0 && ls < NH);
             a.d = d;
@@ -642,6 +643,8 @@ fn seq_post<T: Payload + 'static>(cx: &mut Ctx<T>, sp: &mut Spec, observers: boo
     assert!(sp.sc == 0 && sp.rc == 0 || (ab.send_count as usize == live_s(cx) && ab.recv_count as usize == live_r(cx)),
         "C12: count differs from the number of live handles");
     assert!(ab.qlen <= ab.capacity, "C08: buffer longer than capacity");
+    assert!(ab.strong == live_s(cx) + live_r(cx) + 1,
+        "C09/C12: owners of the channel state differ from the number of live handles (a clone or conversion created or leaked one)");
     if observers {
         observe(cx, sp);
     }
